@@ -69,7 +69,7 @@ def make_cfg(overrides, invariants=(), symmetry=True, view=True, extra_lines=())
     lines += ["INIT Init", "NEXT Next"]
     if view:
         lines.append("VIEW view")
-    if symmetry:
+    if symmetry and c.get("Orphans") != "TRUE":   # orph ordering uses CHOOSE: no symmetry reduction then
         lines.append("SYMMETRY Symm")
     for inv in invariants:
         lines.append("INVARIANT " + inv)
@@ -267,7 +267,8 @@ def obs_check(records, workdir, timeout=900):
 
 # ---------------------------------------------------------------- trace validation (T)
 TRACE_CONSTS = {"None": "0", "MaxTerm": 100000, "MaxLog": 100000, "MaxCmds": 100000, "MaxCrash": 100000, "MaxInflight": 100000,
-                "MaxElections": 100000, "Orphans": "TRUE", "Reduce": "FALSE", "KeepHist": "FALSE"}
+                "MaxElections": 100000, "Orphans": "TRUE", "Reduce": "FALSE", "KeepHist": "FALSE",
+                "MaxRoundOrd": 100000, "MaxCfgReqs": 100000, "RoundFastSet": "{TRUE, FALSE}"}
 
 
 def trace_validate(records, workdir, sched0, timeout=900, max_drifts=4):
@@ -296,7 +297,7 @@ def trace_validate(records, workdir, sched0, timeout=900, max_drifts=4):
         r = tlc(os.path.join(workdir, "trace-%d" % attempt), "RaftTrace", cfg, args=["-workers", "1"], timeout=timeout,
                 env={"VERIF_TRACE": f}, name="RaftTrace")
         if r["error"]:
-            raise HarnessError("trace validation failed to run: " + r["error"] + "\n" + r["out"][-1500:])
+            raise HarnessError("trace validation failed to run: " + r["error"][:600])
         m = re.search(r"depth of the complete state graph search is (\d+)", r["out"])
         depth = int(m.group(1)) if m else 0
         if "TRACE-ACCEPTED" in r["out"] or depth - 1 >= len(cur):
